@@ -257,3 +257,164 @@ func TestRegressMatchesGoroutineLeak(t *testing.T) {
 		t.Fatalf("500 non-matching evaluations left %d goroutines behind", after-before)
 	}
 }
+
+const knownPredefinedKey = "C19-eventbus-app-event-under-predefined-key"
+
+// TestRegressAppEventUnderPredefinedKey: an application BeginBlock event {type "tm", key "event", value "Tx"} must
+// not make the block-header message match tm.event = 'Tx' (and a DeliverTx event tm.event = NewBlockHeader must not
+// make the tx message match tm.event = 'NewBlockHeader'): the event bus defines tm.event itself ("Existing events
+// with the same keys will be overwritten"). With the real indexer service attached the first case blocks the bus
+// for ever (header delivered to the service's unbuffered tx subscription), the second panics the service on a
+// type assertion; this test shows the root cause without either.
+func TestRegressAppEventUnderPredefinedKey(t *testing.T) {
+	ctx := context.Background()
+	bus := types.NewEventBus()
+	if err := bus.Start(); err != nil {
+		t.Fatal(err)
+	}
+	defer bus.Stop() //nolint:errcheck
+	txSub, err := bus.Subscribe(ctx, "wants-txs", types.EventQueryTx, 10)
+	if err != nil {
+		t.Fatal(err)
+	}
+	hdrSub, err := bus.Subscribe(ctx, "wants-headers", types.EventQueryNewBlockHeader, 10)
+	if err != nil {
+		t.Fatal(err)
+	}
+	appEvent := func(v string) []abci.Event {
+		return []abci.Event{{Type: "tm", Attributes: []abci.EventAttribute{{Key: []byte("event"), Value: []byte(v)}}}}
+	}
+	if err := bus.PublishEventNewBlockHeader(types.EventDataNewBlockHeader{Header: types.Header{Height: 1},
+		ResultBeginBlock: abci.ResponseBeginBlock{Events: appEvent("Tx")}}); err != nil {
+		t.Fatal(err)
+	}
+	if err := bus.PublishEventTx(types.EventDataTx{TxResult: abci.TxResult{Height: 1, Tx: []byte("t"),
+		Result: abci.ResponseDeliverTx{Events: appEvent("NewBlockHeader")}}}); err != nil {
+		t.Fatal(err)
+	}
+	if _, err := bus.Subscribe(ctx, "barrier", query.MustParse("x.y = 'z'"), 1); err != nil { // both publications processed
+		t.Fatal(err)
+	}
+	bad := ""
+	for len(txSub.Out()) > 0 {
+		if m := <-txSub.Out(); !isTxData(m.Data()) {
+			bad += fmt.Sprintf("  subscriber of tm.event = 'Tx' received a %T\n", m.Data())
+		}
+	}
+	for len(hdrSub.Out()) > 0 {
+		if m := <-hdrSub.Out(); isTxData(m.Data()) {
+			bad += fmt.Sprintf("  subscriber of tm.event = 'NewBlockHeader' received a %T\n", m.Data())
+		}
+	}
+	lib.Case("TestRegressAppEventUnderPredefinedKey", lib.FP("predefined-key"), true, fmt.Sprintf("wrong:%v", bad != ""))
+	if bad != "" {
+		if lib.IsKnown(knownPredefinedKey) {
+			lib.ObservedKnown(knownPredefinedKey)
+			lib.ExcludedByKnown(knownPredefinedKey)
+			return
+		}
+		t.Fatalf("application events under the key tm.event redirect messages:\n%s", bad)
+	}
+}
+
+func isTxData(d interface{}) bool { _, ok := d.(types.EventDataTx); return ok }
+
+const knownNumericBounds = "C19-index-range-float-and-extreme-bounds"
+
+// TestRegressNumericRangeBounds: range conditions whose operand is a floating point number (part of the query
+// language) or the largest 64-bit integer, against indexed integers 2, 7 and 9223372036854775807.
+func TestRegressNumericRangeBounds(t *testing.T) {
+	ctx := context.Background()
+	txIdx := txkv.NewTxIndex(dbm.NewMemDB())
+	blkIdx := blockkv.New(dbm.NewMemDB())
+	for i, v := range []string{"2", "7", "9223372036854775807"} {
+		if err := txIdx.Index(mkTx(1, uint32(i), "t"+v, "n", v)); err != nil {
+			t.Fatal(err)
+		}
+		err := blkIdx.Index(types.EventDataNewBlockHeader{Header: types.Header{Height: int64(i + 1)},
+			ResultBeginBlock: abci.ResponseBeginBlock{Events: []abci.Event{{Type: "acc", Attributes: []abci.EventAttribute{{Key: []byte("n"), Value: []byte(v), Index: true}}}}}})
+		if err != nil {
+			t.Fatal(err)
+		}
+	}
+	search := func(q string) (ntx, nblk int, failure string) {
+		defer func() {
+			if r := recover(); r != nil {
+				failure = fmt.Sprintf("panic: %v", r)
+			}
+		}()
+		txs, err := txIdx.Search(ctx, query.MustParse(q))
+		if err != nil {
+			return 0, 0, err.Error()
+		}
+		hs, err := blkIdx.Search(ctx, query.MustParse(q))
+		if err != nil {
+			return 0, 0, err.Error()
+		}
+		return len(txs), len(hs), ""
+	}
+	bad := ""
+	for _, c := range []struct {
+		q    string
+		want int
+	}{
+		{"acc.n >= 1.5", 3},
+		{"acc.n > 2.5", 2},
+		{"acc.n >= 1 AND acc.n <= 10.5", 2},
+		{"acc.n > 1 AND acc.n < 6.5", 1},
+		{"acc.n > 2.5 AND acc.n >= 0", 2},
+		{"acc.n > 9223372036854775807", 0},
+		{"acc.n >= 9223372036854775807", 1},
+		{"acc.n > 9223372036854775806", 1},
+	} {
+		ntx, nblk, failure := search(c.q)
+		if failure != "" || ntx != c.want || nblk != c.want {
+			bad += fmt.Sprintf("  %s: tx search %d, block search %d, want %d %s\n", c.q, ntx, nblk, c.want, failure)
+		}
+	}
+	lib.Case("TestRegressNumericRangeBounds", lib.FP("numeric-range-bounds"), true, fmt.Sprintf("wrong:%v", bad != ""))
+	if bad != "" {
+		if lib.IsKnown(knownNumericBounds) {
+			lib.ObservedKnown(knownNumericBounds)
+			lib.ExcludedByKnown(knownNumericBounds)
+			return
+		}
+		t.Fatalf("range searches over indexed values 2, 7, 9223372036854775807:\n%s", bad)
+	}
+}
+
+// TestRegressSearchShortcuts: next to tx.hash = ... / block.height = H the other conditions of the conjunction are
+// ignored (known finding: the shortcuts are documented in the Search comments and queries like
+// "tm.event = 'Tx' AND tx.hash = ..." rely on the first one).
+func TestRegressSearchShortcuts(t *testing.T) {
+	ctx := context.Background()
+	txIdx := txkv.NewTxIndex(dbm.NewMemDB())
+	a := mkTx(1, 0, "A", "n", "7")
+	if err := txIdx.Index(a); err != nil {
+		t.Fatal(err)
+	}
+	blkIdx := blockkv.New(dbm.NewMemDB())
+	err := blkIdx.Index(types.EventDataNewBlockHeader{Header: types.Header{Height: 2},
+		ResultBeginBlock: abci.ResponseBeginBlock{Events: []abci.Event{{Type: "acc", Attributes: []abci.EventAttribute{{Key: []byte("n"), Value: []byte("20"), Index: true}}}}}})
+	if err != nil {
+		t.Fatal(err)
+	}
+	bad := ""
+	txs, err := txIdx.Search(ctx, query.MustParse(fmt.Sprintf("tx.hash = '%X' AND tx.height = 999", types.Tx(a.Tx).Hash())))
+	if err != nil || len(txs) != 0 {
+		bad += fmt.Sprintf("  tx.hash = <A> AND tx.height = 999: %d results (%v), A is at height 1\n", len(txs), err)
+	}
+	hs, err := blkIdx.Search(ctx, query.MustParse("block.height = 2 AND acc.n = 999"))
+	if err != nil || len(hs) != 0 {
+		bad += fmt.Sprintf("  block.height = 2 AND acc.n = 999: %v (%v), block 2 has acc.n = 20\n", hs, err)
+	}
+	lib.Case("TestRegressSearchShortcuts", lib.FP("search-shortcuts"), true, fmt.Sprintf("wrong:%v", bad != ""))
+	if bad != "" {
+		if lib.IsKnown(knownShortcut) {
+			lib.ObservedKnown(knownShortcut)
+			lib.ExcludedByKnown(knownShortcut)
+			return
+		}
+		t.Fatalf("searches return items that do not satisfy the conjunction:\n%s", bad)
+	}
+}
